@@ -159,6 +159,23 @@ fn code_map_routes(cm: &CodeMap) -> Option<String> {
 	iter_routes(&|| cm.iter(), &|(i, e)| json!([i, t(e)]))
 }
 
+/// Failed parses of every kind (malformed escape, unterminated string, stream error in the middle of a string, ill-formed
+/// UTF-8 in the middle of a string / key / number, syntax errors at depth).  Called on the current thread before other
+/// calls: nothing a failed parse leaves behind may influence a later one.
+pub fn disturb() {
+	let _ = guarded(|| {
+		let _ = Value::parse_str("{\"stale-key-\\u00e9\":[1,\"stale string \\u12");
+		let _ = Value::parse_str("[\"left over\\uD800");
+		let _ = Value::parse_str_with("[\"left over\\uD83D", Options::flexible());
+		let _ = Value::parse_slice(b"{\"k\":\"abc\xff");
+		let _ = Value::parse_slice(b"[12345\xc0");
+		let _ = Value::parse_utf8("[\"abcdefghijklmnopqrstuvwxyz".chars().map(Ok::<char, ()>).chain(std::iter::once(Err(()))));
+		let _ = Value::parse_utf8("{\"key".chars().map(Ok::<char, ()>).chain(std::iter::once(Err(()))));
+		let _ = Value::parse_str("[[[{\"a\":[1,2,{\"b\":tru");
+		let _ = Value::parse_str("\"abc\\");
+	});
+}
+
 /// All entry points on a `str` input under options `o`.
 pub fn run_all_str(s: &str, o: Options) -> Vec<(&'static str, J)> {
 	let mut out = vec![];
@@ -234,6 +251,11 @@ pub fn compare_outcome(rep: &mut Report, ctx: &J, entry: &str, exp: &J, got: &J,
 	if eok {
 		if exp["v"] != got["v"] {
 			rep.mismatch(if strict { "C02.value" } else { "C12.value" }, detail("parsed value differs from the document's content"));
+			if !strict {
+				// the content of a document accepted under lenient options is just as determined (C12 fixes the meaning of the
+				// relaxed escapes): a wrong value is a matter of C02 as well
+				rep.mismatch("C02.value_lenient", detail("parsed value differs from the document's content (lenient options)"));
+			}
 		}
 		if let Some(gcm) = got.get("cm") {
 			if &exp["cm"] != gcm {
@@ -363,6 +385,9 @@ pub fn replay_parse(rep: &mut Report, rec: &J) {
 	let strict = is_strict(&o);
 	let exp = &rec["out"];
 	let ctx = json!({"w": w, "text": show(&s), "o": rec["o"], "vector": rec});
+	if rep.counters["parse_vectors"] % 5 == 0 {
+		disturb();
+	}
 	let results = run_all_str(&s, o);
 	rep.add("parse_calls", results.len() as u64);
 	// all entry points give the same result (C01)
